@@ -30,7 +30,7 @@ def _inject(cfgp, lines):
         f.write(txt.replace("CONSTANTS\n", "CONSTANTS\n" + lines))
 
 
-LPG_PROGS = {"ProgSpSp": 2, "ProgSpDn": 2, "ProgAlDn": 2, "ProgAlRl": 2, "ProgAlAl": 2, "ProgRlDn": 2, "ProgDnDn": 2, "ProgCnCn": 2, "ProgEdge": 2, "ProgThree": 3}
+LPG_PROGS = {"ProgSpSp": 2, "ProgSpDn": 2, "ProgAlDn": 2, "ProgAlRl": 2, "ProgAlAl": 2, "ProgRlDn": 2, "ProgDnDn": 2, "ProgCnCn": 2, "ProgEdge": 2, "ProgThree": 3, "ProgCeCe": 2, "ProgCeCe3": 3, "ProgCnCn3": 3}
 LPG_INVS = ["Linearizable", "UniqueIds", "LabelMirror", "PropMirror", "AdjMirror"]
 
 
@@ -118,7 +118,7 @@ def lpg_part(rep, wd, tier, seed):
     nrand, nenum = (20, 400) if tier == "quick" else (200, 20000)
     V.gv(["conc", "--model", "lpg", "--progs", os.path.join(D, "lpg_progs.ndjson"), "--random", nrand, "--enumerate", nenum, "--seed", seed, "--out", tp], timeout=3000)
     fp = os.path.join(wd, "lpg-free.ndjson")
-    rc, _, _ = V.gv(["lpgstress", "--progs", os.path.join(D, "lpg_progs.ndjson"), "--rounds", 150 if tier == "quick" else 3000, "--limit", 20, "--out", fp], timeout=3000, check=False)
+    rc, _, _ = V.gv(["lpgstress", "--progs", os.path.join(D, "lpg_progs.ndjson"), "--rounds", 3000 if tier == "quick" else 60000, "--limit", 20, "--out", fp], timeout=3000, check=False)
     free = V.read_ndjson(fp)
     if rc == 3:
         h = free.pop()
